@@ -31,27 +31,29 @@ INF == 1000000000
 (* the classified symbol with the atom's capacity under Table resolved.    *)
 (***************************************************************************)
 SymOfC(c, tok) == IF c THEN Modernize(tok) ELSE tok
-RawInfo(sym) ==
-  LET c == Classify(sym)
-  IN IF c.k = "atom"
-     THEN LET cap == AtomCapacity(Table, c.atom)
-          IN IF cap < 0 THEN [k |-> "bad"]
-             ELSE [k |-> "atom", order |-> c.order, st |-> c.st, atom |-> c.atom, cap |-> cap]
-     ELSE c
 (* classification is character-level and therefore costly; symbols named in *)
 (* KnownSyms are classified once (TLC evaluates constant definitions once). *)
-InfoTable == [s \in KnownSyms |-> RawInfo(s)]
-InfoSym(sym) == IF sym \in KnownSyms THEN InfoTable[sym] ELSE RawInfo(sym)
-InfoC(c, tok) == InfoSym(SymOfC(c, tok))
+(* It does not depend on the constraint table; the atom's capacity is looked *)
+(* up under the table of the call (d.table) when the symbol is read.         *)
+InfoTable == [s \in KnownSyms |-> Classify(s)]
+InfoSym(sym) == IF sym \in KnownSyms THEN InfoTable[sym] ELSE Classify(sym)
+WithCap(t, c) ==
+  IF c.k = "atom"
+  THEN LET cap == AtomCapacity(t, c.atom)
+       IN IF cap < 0 THEN [k |-> "bad"]
+          ELSE [k |-> "atom", order |-> c.order, st |-> c.st, atom |-> c.atom, cap |-> cap]
+  ELSE c
+InfoC(t, c, tok) == WithCap(t, InfoSym(SymOfC(c, tok)))
 
 (***************************************************************************)
 (* State                                                                   *)
 (***************************************************************************)
 RootFrame == [state |-> 0, prev |-> 0, end |-> INF, attr |-> <<>>]
 
-InitStateC(inp, closed, compat) ==
+InitStateT(inp, closed, compat, table) ==
   [ inp    |-> inp,        \* tokens: bracketed symbols, "[nop]", "."
     compat |-> compat,     \* the compatible=True flag of this call
+    table  |-> table,      \* the constraint table in force during this call
     closed |-> closed,     \* no more tokens will be supplied
     rp     |-> 0,          \* tokens consumed (including "." and [nop])
     pos    |-> 0,          \* symbols counted in the current fragment (incl. phantom index symbols)
@@ -75,9 +77,10 @@ InitStateC(inp, closed, compat) ==
     nopen  |-> 0,          \* rings opened so far
     otok   |-> <<>>,       \* per written atom token: [atom, end, tok]
     labels |-> <<>> ]      \* every label written, in order: [bond, lab]
+InitStateC(inp, closed, compat) == InitStateT(inp, closed, compat, Table)
 InitState(inp, closed) == InitStateC(inp, closed, Compat)
 SymOf(d, tok) == SymOfC(d.compat, tok)
-Info(d, tok)  == InfoC(d.compat, tok)
+Info(d, tok)  == InfoC(d.table, d.compat, tok)
 
 Top(d) == d.stack[Len(d.stack)]
 SetTop(d, f) == [d.stack EXCEPT ![Len(d.stack)] = f]
@@ -356,7 +359,7 @@ Outcome(d) == IF d.pc = "error" THEN [kind |-> "DecoderError", value |-> ""]
 (***************************************************************************)
 ExplicitH(a) == IF a.h > 0 THEN a.h ELSE 0
 Valence(d)    == \A i \in 1..Len(d.atoms) : BondSum(d, i) <= d.atoms[i].cap
-CapIsTable(d) == \A i \in 1..Len(d.atoms) : d.atoms[i].cap = AtomCapacity(Table, d.atoms[i].atom)
+CapIsTable(d) == \A i \in 1..Len(d.atoms) : d.atoms[i].cap = AtomCapacity(d.table, d.atoms[i].atom)
 StateBound(d) ==      \* the frame state never exceeds the free valence of prev
   d.pc \in {"derive", "index"} =>
     \A f \in 1..Len(d.stack) :
@@ -417,7 +420,7 @@ StepClauses(d, e) ==
   IF e.pc = "done" /\ d.pc # "done" THEN FailedClauses(e)     \* everything once, on the finished molecule
   ELSE LET T == TouchedAtoms(d, e)
        IN (IF \A i \in T : e.bc[i] <= e.atoms[i].cap THEN {} ELSE {"Valence"})
-          \cup (IF \A i \in T : e.atoms[i].cap = AtomCapacity(Table, e.atoms[i].atom) THEN {} ELSE {"CapIsTable"})
+          \cup (IF \A i \in T : e.atoms[i].cap = AtomCapacity(e.table, e.atoms[i].atom) THEN {} ELSE {"CapIsTable"})
           \cup (IF Len(e.bonds) > Len(d.bonds)
                 THEN LET b == e.bonds[Len(e.bonds)]
                      IN (IF b.src # b.dst THEN {} ELSE {"NoSelfBond"})
